@@ -61,11 +61,11 @@ func init() {
 		[]string{"fault_process_crash_images", "fault_power_loss_images", "fault_torn_write_images", "images_ok", "usability_rounds", "rotations", "cc_groups", "cc_merges", "cc_images_with_inflight_ops"},
 		"power loss loses a not-yet-synced tail of a file from the end only (no reordering inside the tail, no sector garbage)")
 	meta("C04", "fault_enumeration", crashTech+"a batch is one mutation of the prefix oracle, so a partial batch equals no allowed state; 30% of the runs: batches committed by several concurrent clients (incl. next to a Merge), each batch one atomic step of the order searched for",
-		NontrivialRuleText["C04"], 500, 6000,
+		NontrivialRuleText["C04"], 600, 6000,
 		[]string{"fault_process_crash_images", "fault_power_loss_images", "images_ok", "batches", "sync_batches", "rotations", "cc_batches", "cc_merges", "fault_clock_stepped_back"},
 		"power loss loses a not-yet-synced tail of a file from the end only")
 	meta("C07", "fault_enumeration", crashTech+"two levels deep for Merge and adoption: every position of the recovery Open is crashed again, then a clean Open; after recovering from a crash inside Merge the history continues with deletes, overwrites, a second Merge and two restarts; half of the runs: a Merge racing concurrent writers under the seeded scheduler, crashed at every journal position",
-		NontrivialRuleText["C07"], 500, 8000,
+		NontrivialRuleText["C07"], 700, 8000,
 		[]string{"fault_process_crash_images", "fault_second_crash_images", "images_ok", "merges", "reopen_after_recovery", "cc_merges", "second_merge_rounds"},
 		"process crash only (the property says 'the process dies')")
 	meta("C11", "exploration", "deterministic simulation (fault-free, one client): the exported datafile API is driven on the simulated disk through both I/O back-ends in lock-step; record start offsets and end distances are aimed using file sizes observed at the disk seam; round-trip, positions, sizes, logical==physical and byte-identity of the back-ends are checked",
